@@ -1,5 +1,6 @@
 """C10 Pack index lookups agree across implementations and with a map model (Engine A over IdxMap)."""
 import json
+from concurrent.futures import ThreadPoolExecutor
 
 import vlib
 
@@ -7,7 +8,7 @@ LEVEL = "model_checking"
 MANIFEST = {
     "engine": "tlc MCIdxMap + vhbytes c10",
     "technique": "pack index specified in TLA+ as a finite map with its full query table; TLC enumerates every map within the bound and checks the map theorems; each map is written with idxfile.Writer/Encode + revfile.Encode and the same queries are asked of MemoryIndex (written and decoded), LazyIndex (with/without fd pool) and the mmap PackScanner; named corruption classes are applied to the files",
-    "text": "Exhaustive within the bound: every well-formed map of <= 2 (quick) / 3 (thorough) entries over 11 ids (first bytes 00/01/7f/fe/ff, shared 2- and 3-byte prefixes, ids differing only in the last byte) x injective offset assignments over {12, 2^31-1, 2^31, 2^32+5, 2^40} is a TLC state; Contains/MayContain/FindOffset/FindCRC32 for every id of the universe, FindHash for every offset, Count, Entries, EntriesByOffset and EntriesWithPrefix for 20 prefixes (length 0..3, incl. absent buckets, ff.., greater than every id) must equal the table TLC computed in every implementation; 10 corruption classes must never yield a different answer without an error (6 strict classes must always be noticed).",
+    "text": "Size class: maps of b*k+r entries (b = 1024, 8192 [, 16384]) with 64-bit offsets placed by block position (first/last block, head and tail of the second-to-last block, every 5th, all but the first) must be answered identically (all entries, both iteration orders, count) by MemoryIndex, LazyIndex, the mmap scanner and git show-index. Exhaustive within the bound: every well-formed map of <= 2 (quick) / 3 (thorough) entries over 11 ids (first bytes 00/01/7f/fe/ff, shared 2- and 3-byte prefixes, ids differing only in the last byte) x injective offset assignments over {12, 2^31-1, 2^31, 2^32+5, 2^40} is a TLC state; Contains/MayContain/FindOffset/FindCRC32 for every id of the universe, FindHash for every offset, Count, Entries, EntriesByOffset and EntriesWithPrefix for 20 prefixes (length 0..3, incl. absent buckets, ff.., greater than every id) must equal the table TLC computed in every implementation; 10 corruption classes must never yield a different answer without an error (6 strict classes must always be noticed).",
     "note": "ids are determined by their first three and last byte (the 16 bytes between are constant); the mmap PackScanner (FindOffset/FindHash only, needs real files) sees a seeded 1/8 (quick) or 1/2 (thorough) of the maps; corruption classes are applied to a seeded quarter of the maps in the quick tier; a non-empty index always contains offset 12 (as every real pack does; git's own idx size check depends on it).",
 }
 
@@ -25,23 +26,63 @@ INVARIANTS Sorted OffSorted SameEntries OffInverse PrefixRun EmitHist
 CHECK_DEADLOCK FALSE
 """
 
+# size class "several read blocks with a partial last block" (IdxBlocks.tla): n = b*k + r entries, 64-bit offsets by block position
+BLK = """CONSTANTS Blocks = %s
+ Ks = %s
+ Rs = %s
+ Places = {"none","first-block","last-block","pen-tail","pen-head","every-5th","all-but-first"}
+ MaxN = %d
+ Emit = TRUE
+INIT Init
+NEXT Next
+INVARIANTS AtMostNminus1 Permutation Ordered PenNeedsTwo EmitHist
+CHECK_DEADLOCK FALSE
+"""
+
 
 def run(ctx):
     maxn = 3 if ctx.thorough else 2
-    r = ctx.tlc("MCIdxMap", cfg_text=CFG % maxn, workers=1, timeout=3000)
+    th = ctx.thorough
+    # block layouts: 8192 entries = one 32 KiB read of the 4-byte offset table, 1024 = one 4 KiB page (16384 = 64 KiB in thorough)
+    blk_runs = [("blk8k", BLK % ("{8192}", "{1}", "{1,808}", 9100)),
+                ("blk1k", BLK % ("{1024}", "{1,2}", "{1,500}", 3100))]
+    if th:
+        blk_runs = [("blk8k", BLK % ("{8192}", "{1,2}", "{0,1,808,8191}", 25000)),
+                    ("blk16k", BLK % ("{16384}", "{1}", "{1,808,8191}", 25000)),
+                    ("blk1k", BLK % ("{1024}", "{0,1,2,3}", "{0,1,5,500,1023}", 4100))]
+
+    def one(item):
+        name, text = item
+        return ctx.tlc("IdxBlocks", cfg="IdxBlocks_%s.cfg" % name, cfg_text=text, dirname="t_" + name, workers=1, timeout=3000)
+
+    with ThreadPoolExecutor(max_workers=4) as ex:
+        fut = [ex.submit(one, it) for it in blk_runs]
+        r = ctx.tlc("MCIdxMap", cfg_text=CFG % maxn, workers=1, timeout=3000)
+        blk = []
+        for f in fut:
+            blk += ctx.printed_json(f.result())
     hs = ctx.printed_json(r)
-    if not hs:
-        raise vlib.ToolingError("TLC printed no maps")
+    if not hs or not blk:
+        raise vlib.ToolingError("TLC printed no maps (%d) / layouts (%d)" % (len(hs), len(blk)))
+    pb = ctx.path("idx_blocks.ndjson")
+    with open(pb, "w") as f:
+        for h in blk:
+            f.write(json.dumps(h) + "\n")
     p = ctx.path("idx_hist.ndjson")
     with open(p, "w") as f:
         for h in hs:
             f.write(json.dumps(h) + "\n")
     ctx.vh("c10", [p], pkg="vhbytes", timeout=3000)
-    ctx.cov["traces_validated_against_impl"] = len(hs)
+    ctx.vh("c10blocks", [pb], pkg="vhbytes", timeout=3000)
+    ctx.cov["traces_validated_against_impl"] = len(hs) + len(blk)
     ctx.cov["bounds"] = {"ids": 11, "offsets": ["12", "2^31-1", "2^31", "2^32+5", "2^40"], "max_entries": maxn, "maps": len(hs),
                          "prefixes": 20, "corruption_classes": 10,
+                         "block_layouts": len(blk), "block_sizes": [1024, 8192, 16384] if th else [1024, 8192],
+                         "block_layout_entries": "b*k + r, r in {0,1,5,500/808,b-1}, 64-bit offsets placed by block position (7 placements)",
                          "implementations": ["MemoryIndex(written)", "MemoryIndex(decoded)", "LazyIndex", "LazyIndex+fdpool(1)", "PackScanner(mmap)"]}
     ctx.cov["exhaustive"] = True
     ctx.cov["rule"] = ("every well-formed map within the bound is one TLC state carrying its complete answer table; distinct = distinct map; "
                        "each map is non-trivial by construction (all ids of the universe and all offsets are probed, present and absent)")
-    ctx.assumptions += ["sha1 object format only", "the pack file handed to the mmap scanner is an empty dummy pack (only index lookups are exercised)"]
+    ctx.assumptions += ["sha1 object format only",
+                        "block layouts: ids, crcs and offsets of entry p are rendered by fixed formulas (small = 12+64p, big = 2^31+262144(p-1)); git reads the "
+                        "written idx with `git show-index` on a seeded third of the layouts (no pack exists for these offsets)", "the pack file handed to the mmap scanner is an empty dummy pack (only index lookups are exercised)"]
